@@ -94,7 +94,7 @@ func c05Build(p *chk.Prog, r *chk.Report) {
 		return
 	}
 	ip, adc := rangeVal(f, ipLoop), rangeVal(f, adLoop)
-	stores := g.Find(f.IsAssignPat("RECV.svcAds[N]", "append(RECV.svcAds[N], AD)", chk.H("N", name)))
+	stores, _ := bgpAdAppends(f, g, name, ipLoop)
 	if len(stores) != 1 || !chk.InBody(adLoop, stores[0].Node) {
 		x.Fail("SetBalancer:store-site", f.Pos(), "expected one append to c.svcAds[name] inside the advertisement loop")
 		return
@@ -186,6 +186,22 @@ func c05Build(p *chk.Prog, r *chk.Report) {
 			return f.IsAssignPat("AD.Communities", "append(AD.Communities, K)", chk.H("K", rangeKey(f, rs)))(n)
 		}
 		commOK = !loopCanSkip(g, rs, app) && !loopHasBreak(g, rs)
+		if !commOK {
+			// the keys collected into a local list that becomes the advertisement's list (maps.Keys + slices.Collect)
+			for _, as := range g.Find(f.IsAssignPat("AD.Communities", "L")) {
+				lid, ok := ast.Unparen(f.Resolve(as.Node.(*ast.AssignStmt).Rhs[0])).(*ast.Ident)
+				if !ok || !g.AfterLoop(as, rs) {
+					continue
+				}
+				l := f.ObjOf(lid)
+				appL := func(n ast.Node) bool {
+					return f.IsAssignPat("L", "append(L, K)", chk.H("L", f.IsObj(l)), chk.H("K", rangeKey(f, rs)))(n)
+				}
+				if l != nil && !loopCanSkip(g, rs, appL) && !loopHasBreak(g, rs) && startsEmptyBefore(f, g, l, rs) {
+					commOK = true
+				}
+			}
+		}
 	}
 	x.Check("SetBalancer:ad:communities", st.Pos(), commOK, "", "the advertisement does not carry every community of the BGP advertisement being processed")
 
@@ -218,11 +234,12 @@ func c05Build(p *chk.Prog, r *chk.Report) {
 func c05Publish(p *chk.Prog, r *chk.Report) {
 	x := r.Rule("PUBLISH", "B path + E sibling", "in (*bgpController).publishAds: allAds receives every advertisement of every service; every peer with a live session (the only skip is peer.session == nil) gets peer.session.Set(adsForPeer(peer.cfg.Name, allAds)...) and adsSet[peer.cfg.Name] records the same list; a Set error is returned", 5)
 	f := need(x, p, "speaker", "bgpController", "publishAds")
+	adsInPlace := false
 	if f != nil {
 		g := f.Graph()
 		var all types.Object
 		okAll := false
-		for _, rs := range f.RangeLoops(func(e ast.Expr) bool { return f.MatchNew("RECV.svcAds", e) != nil }) {
+		for _, rs := range f.RangeLoops(recvFieldOrPassed(p, f, "bgpController", "svcAds")) {
 			apps := g.Find(func(n ast.Node) bool {
 				return chk.InBody(rs, n) && f.IsAssignPat("ALL", "append(ALL, ADS...)", chk.H("ADS", rangeVal(f, rs)))(n)
 			})
@@ -232,9 +249,23 @@ func c05Publish(p *chk.Prog, r *chk.Report) {
 			}
 		}
 		x.Check("publishAds:all-services", f.Pos(), okAll, "", "the advertisements of some service can be left out of what is published")
-		for _, rs := range f.RangeLoops(func(e ast.Expr) bool { return f.MatchNew("RECV.peers", e) != nil }) {
+		for _, rs := range f.RangeLoops(recvFieldOrPassed(p, f, "bgpController", "peers")) {
 			peer := rangeVal(f, rs)
-			ads := definedBy(g, "adsForPeer(P.cfg.Name, ALL)", chk.H("P", peer), chk.H("ALL", f.IsObj(all)))
+			viaHelper := definedBy(g, "adsForPeer(P.cfg.Name, ALL)", chk.H("P", peer), chk.H("ALL", f.IsObj(all)))
+			inPlaceFilter := false
+			ads := func(e ast.Expr) bool {
+				if viaHelper(e) {
+					return true
+				}
+				// the same selection written in place: the advertisements a of allAds with a.MatchesPeer(peer.cfg.Name)
+				if filteredList(f, g, e, f.IsObj(all), func(a func(ast.Expr) bool, pos bool) chk.Guard {
+					return g.GPat(pos, "A.MatchesPeer(P.cfg.Name)", chk.H("A", a), chk.H("P", peer))
+				}) {
+					inPlaceFilter = true
+					return true
+				}
+				return false
+			}
 			sets := g.FindPat("P.session.Set(ADS...)", chk.H("P", peer))
 			okSet := len(sets) == 1 && ads(sets[0].Node.(*ast.CallExpr).Args[0])
 			x.Check("publishAds:set-gets-ads-for-that-peer", rs.Pos(), okSet, "", "a session is given something other than adsForPeer(its own peer name, all advertisements)")
@@ -251,10 +282,18 @@ func c05Publish(p *chk.Prog, r *chk.Report) {
 			}
 			rec := g.Find(f.IsAssignPat("M[P.cfg.Name]", "ADS", chk.H("P", peer), chk.H("ADS", ads)))
 			x.Check("publishAds:record-matches-published", rs.Pos(), len(rec) == 1, "", "the recorded per-peer list is not the list handed to the session")
+			if inPlaceFilter {
+				adsInPlace = true
+			}
 		}
 	}
 	y := r.Rule("MATCH-PEER", "B path", "speaker.adsForPeer appends an advertisement exactly when a.MatchesPeer(peerName) (no other skip); bgp.(*Advertisement).MatchesPeer returns true only behind len(a.Peers) == 0 or peer == peerName for a listed peer, and false after the whole list was scanned", 4)
-	af := need(y, p, "speaker", "", "adsForPeer")
+	af := p.LookupFunc("speaker", "", "adsForPeer")
+	if af == nil && adsInPlace {
+		y.OK("adsForPeer:exactly-matching", 0, "the selection is made in place in publishAds (decided there)")
+	} else if af == nil {
+		af = need(y, p, "speaker", "", "adsForPeer")
+	}
 	if af != nil {
 		g := af.Graph()
 		ok := false
@@ -423,9 +462,9 @@ func c05Republish(p *chk.Prog, r *chk.Report) {
 	ua := need(x, p, "speaker", "bgpController", "updateAds")
 	if ua != nil {
 		g := ua.Graph()
-		pub := definedBy(g, "RECV.publishAds()")
+		pub := definedBy(g, "RECV.publishAds(ETC)")
 		ns := g.FindPat("RECV.notifyAdsChanged(A)", chk.H("A", pub))
-		ok := len(ns) == 1 && g.Dominated(ns[0], g.GErrNil(true, "RECV.publishAds()"))
+		ok := len(ns) == 1 && g.Dominated(ns[0], g.GErrNil(true, "RECV.publishAds(ETC)"))
 		if ok {
 			w := g.MustPass(chk.Site{}, func(n ast.Node) bool {
 				rs, okk := n.(*ast.ReturnStmt)
@@ -665,4 +704,56 @@ func mutatingMethod(name string) bool {
 		return true
 	}
 	return false
+}
+
+// bgpAdAppends finds where (*bgpController).SetBalancer adds an advertisement to the service's list: the append to
+// c.svcAds[name] itself, or - when the list is built in a local first - the append to a local list that starts empty
+// before the address loop and is stored with `c.svcAds[name] = L` after it (local = true: that store replaces the
+// previous list, no reset is needed).
+func bgpAdAppends(f *chk.Fn, g *chk.Graph, name func(ast.Expr) bool, ipLoop *ast.RangeStmt) (sites []chk.Site, local bool) {
+	sites = g.Find(f.IsAssignPat("RECV.svcAds[N]", "append(RECV.svcAds[N], AD)", chk.H("N", name)))
+	if len(sites) > 0 || ipLoop == nil {
+		return sites, false
+	}
+	for _, st := range g.Find(f.IsAssignPat("RECV.svcAds[N]", "L", chk.H("N", name))) {
+		lid, ok := ast.Unparen(st.Node.(*ast.AssignStmt).Rhs[0]).(*ast.Ident)
+		if !ok {
+			continue
+		}
+		l := f.ObjOf(lid)
+		if l == nil || !g.AfterLoop(st, ipLoop) || !startsEmptyBefore(f, g, l, ipLoop) {
+			continue
+		}
+		apps := g.Find(f.IsAssignPat("L", "append(L, AD)", chk.H("L", f.IsObj(l))))
+		okAll := len(apps) > 0
+		for _, a := range apps {
+			if !chk.InBody(ipLoop, a.Node) {
+				okAll = false
+			}
+		}
+		// nothing else writes the local list
+		if okAll && len(assignsTo(f, l)) == len(apps)+countEmptyInits(f, l) {
+			return apps, true
+		}
+	}
+	return nil, false
+}
+
+func countEmptyInits(f *chk.Fn, l types.Object) int {
+	n := 0
+	for _, a := range assignsTo(f, l) {
+		as, ok := a.(*ast.AssignStmt)
+		if !ok || len(as.Lhs) != len(as.Rhs) {
+			continue
+		}
+		for i, lh := range as.Lhs {
+			if id, isId := lh.(*ast.Ident); isId && f.ObjOf(id) == l {
+				r := ast.Unparen(as.Rhs[i])
+				if cl, isLit := r.(*ast.CompositeLit); f.IsNilLit(r) || (isLit && len(cl.Elts) == 0) {
+					n++
+				}
+			}
+		}
+	}
+	return n
 }
